@@ -18,6 +18,8 @@ pub trait Runner: Send + Sync {
     fn run(&self, case: &Value) -> Value;
     fn arb(&self, g: &mut Gen) -> AVal;
     fn desc(&self) -> Value;
+    /// one recorded execution on a random value (events for trace validation); default: none
+    fn trace(&self, _g: &mut Gen, _out: &mut Vec<Value>) {}
 }
 
 // ---------------------------------------------------------------------------
@@ -109,6 +111,66 @@ impl<F: ReadNoStd> ReadWithPos for RecR<'_, F> {
         self.ev.push(json!({"ev": "ralign", "unit": T::max_size_of(), "pos": before, "after": self.inner.pos(), "ok": r.is_ok()}));
         r
     }
+}
+
+// ---------------------------------------------------------------------------
+// recorded executions: one ordered log shared by the sink (every write_all call) and the
+// WriteWithNames wrapper (enter / exit / align / block / flush)
+
+pub type Log = std::rc::Rc<std::cell::RefCell<Vec<Value>>>;
+pub struct LogSink { pub out: Vec<u8>, pub log: Log }
+impl WriteNoStd for LogSink {
+    fn write_all(&mut self, buf: &[u8]) -> ser::Result<()> {
+        self.log.borrow_mut().push(json!({"ev": "w", "pos": self.out.len(), "bytes": buf.to_vec()}));
+        self.out.extend_from_slice(buf);
+        Ok(())
+    }
+    fn flush(&mut self) -> ser::Result<()> { self.log.borrow_mut().push(json!({"ev": "flush"})); Ok(()) }
+}
+pub struct LogW<'a> { pub inner: WriterWithPos<'a, LogSink>, pub log: Log }
+impl WriteNoStd for LogW<'_> {
+    fn write_all(&mut self, buf: &[u8]) -> ser::Result<()> { self.inner.write_all(buf) }
+    fn flush(&mut self) -> ser::Result<()> { self.inner.flush() }
+}
+impl WriteWithPos for LogW<'_> { fn pos(&self) -> usize { self.inner.pos() } }
+impl WriteWithNames for LogW<'_> {
+    fn align<V: MaxSizeOf>(&mut self) -> ser::Result<()> {
+        self.log.borrow_mut().push(json!({"ev": "align", "unit": V::max_size_of(), "pos": self.inner.pos()}));
+        self.inner.align::<V>()
+    }
+    fn write<V: SerializeInner>(&mut self, field_name: &str, value: &V) -> ser::Result<()> {
+        self.log.borrow_mut().push(json!({"ev": "enter", "name": field_name, "pos": self.inner.pos()}));
+        let r = value._serialize_inner(self);
+        self.log.borrow_mut().push(json!({"ev": "exit", "pos": self.inner.pos()}));
+        r
+    }
+    fn write_bytes<V: SerializeInner + ZeroCopy>(&mut self, value: &[u8]) -> ser::Result<()> {
+        self.log.borrow_mut().push(json!({"ev": "block", "unit": V::max_size_of(), "pos": self.inner.pos(), "len": value.len()}));
+        self.inner.write_bytes::<V>(value)
+    }
+}
+/// Record one public serialization: events of the run, then `ret`, then the schema rows of the same value.
+pub fn trace_ser<S: Serialize>(x: &S, out: &mut Vec<Value>) -> Vec<u8> {
+    let log: Log = Default::default();
+    let mut sink = LogSink { out: vec![], log: log.clone() };
+    let r = catch_unwind(AssertUnwindSafe(|| {
+        let mut w = LogW { inner: WriterWithPos::new(&mut sink), log: log.clone() };
+        let r = x.serialize_on_field_write(&mut w);
+        (r.is_ok(), w.inner.pos())
+    }));
+    out.append(&mut log.borrow_mut());
+    match r {
+        Ok((ok, n)) => out.push(json!({"ev": "ret", "st": if ok { "ok" } else { "err" }, "n": n})),
+        Err(p) => out.push(json!({"ev": "ret", "st": "panic", "n": 0, "msg": panic_msg(p)})),
+    }
+    let sc = obs_schema(x);
+    if sc["st"] == "ok" {
+        let rows: Vec<Value> = sc["rows"].as_array().unwrap().iter().map(|r| {
+            json!({"field": r["field"].as_str().unwrap().split('.').collect::<Vec<_>>(), "off": r["off"], "size": r["size"], "align": r["align"]})
+        }).collect();
+        out.push(json!({"ev": "rows", "rows": rows, "same_bytes": sc["out"] == bytes_json(&sink.out)}));
+    }
+    sink.out
 }
 
 // ---------------------------------------------------------------------------
@@ -500,6 +562,20 @@ where
     }
     fn arb(&self, g: &mut Gen) -> AVal { T::arb(g).to_aval() }
     fn desc(&self) -> Value { T::desc() }
+    fn trace(&self, g: &mut Gen, out: &mut Vec<Value>) {
+        let x = T::arb(g);
+        let v = x.to_aval();
+        out.push(json!({"ev": "init", "engine": "ser", "t": T::desc(), "v": v,
+                        "nameLen": core::any::type_name::<T::SerType>().len()}));
+        let bytes = trace_ser(&x, out);
+        // both readers on the recorded stream: the abstract value they return
+        let f = Self::de_full_pub(&bytes, &json!({}));
+        out.push(json!({"ev": "full", "st": f["st"], "val": f.get("val").cloned().unwrap_or(json!([])), "rpos": f.get("rpos").cloned().unwrap_or(json!(0))}));
+        let p = Placed::new(&bytes, 0);
+        let e = Self::de_eps_pub(p.slice());
+        out.push(json!({"ev": "eps", "st": e["st"], "val": e.get("val").cloned().unwrap_or(json!([])),
+                        "borrows": e.get("borrows").cloned().unwrap_or(json!([]))}));
+    }
 }
 
 // ---------------------------------------------------------------------------
